@@ -255,7 +255,7 @@ class Findings:
         if f is not None:
             self.known_hit[f['id']] = f
         else:
-            if len(self.new) < 50:
+            if len(self.new) < 50 and not any(n['kind'] == kind and n['key'] == key for n in self.new):
                 self.new.append({'kind': kind, 'key': key, 'detail': detail})
 
     def probe_known(self, fn):
